@@ -242,6 +242,7 @@ Section Archive.
   Variable fault : option (nat * bool).
   Variable slices : N -> option (list pobj).
   Variable sliceaware : bool.
+  Variable rev0ok : bool.
   Let objs := seen_objects slices sliceaware.
 
   Lemma ensure_paused_true st mem s st' mem' :
@@ -408,6 +409,7 @@ Section PassEvents.
   Variable fault : option (nat * bool).
   Variable slices : N -> option (list pobj).
   Variable sliceaware : bool.
+  Variable rev0ok : bool.
 
   (** ** Pause propagation (objectset_reconciler.go:72-93) *)
   Definition pause_ev (paused : bool) (sets : list dset) (e : dev) : Prop :=
@@ -631,6 +633,7 @@ Section PassTheorems.
   Variable fault : option (nat * bool).
   Variable slices : N -> option (list pobj).
   Variable sliceaware : bool.
+  Variable rev0ok : bool.
 
   Definition st_init (w : dworld) : pst := {| p_w := w; p_evs := []; p_n := O; p_dead := false |}.
   Definition st_listed (w : dworld) : pst := read_req fault (read_req fault (st_init w)).
@@ -644,7 +647,7 @@ Section PassTheorems.
   Definition has_rev0 (L : list dset) : bool := existsb (fun s => Z.eqb (srev s) 0) L.
 
   Lemma dep_pass_unfold stale w w' evs r :
-    dep_pass hash fault slices sliceaware stale w = (w', evs, r) ->
+    dep_pass hash fault slices sliceaware rev0ok stale w = (w', evs, r) ->
     let L := listed stale w in let d1 := dep_hashed w in let hc := has_current d1 L in
     exists st3 d2,
       evs = p_evs (status_req fault st3 d2) /\
@@ -655,7 +658,7 @@ Section PassTheorems.
         exists stp mem, pause_loop fault (st_listed w) (d_paused d1) L = (stp, mem) /\
           ((d_paused d1 = true /\ st3 = stp /\ d2 = set_status d1 (fst (split_current hc mem)) (snd (split_current hc mem))) \/
            (d_paused d1 = false /\ exists sta d3 mem',
-              new_revision fault stp d1 (fst (split_current hc mem)) (snd (split_current hc mem)) = (sta, d3) /\
+              new_revision fault rev0ok stp d1 (fst (split_current hc mem)) (snd (split_current hc mem)) = (sta, d3) /\
               archive fault slices sliceaware sta d3 hc mem = (st3, mem') /\
               d2 = set_status d3 (fst (split_current hc mem')) (snd (split_current hc mem')))))).
   Proof.
@@ -668,7 +671,7 @@ Section PassTheorems.
         eexists stp, _. repeat split. right. split; [reflexivity|]. exists stp, mem. split; [reflexivity|]. left.
         rewrite Es. auto.
       + destruct (split_current _ mem) as [cur prev] eqn:Es.
-        destruct (new_revision fault stp (dep_hashed w) cur prev) as [sta d3] eqn:En.
+        destruct (new_revision fault rev0ok stp (dep_hashed w) cur prev) as [sta d3] eqn:En.
         destruct (archive fault slices sliceaware sta d3 _ mem) as [stb mem'] eqn:Ea.
         destruct (split_current _ mem') as [cur' prev'] eqn:Es'. intros H. injection H as <- <- <-.
         eexists stb, _. repeat split. right. split; [reflexivity|]. exists stp, mem. split; [reflexivity|]. right.
@@ -684,7 +687,7 @@ Section PassTheorems.
   Qed.
 
   Lemma new_revision_spec st d cur prev st' d' :
-    new_revision fault st d cur prev = (st', d') ->
+    new_revision fault rev0ok st d cur prev = (st', d') ->
     exists es, news st st' es /\
       (es = [] \/ exists r, es = [DCreate (d_hash d) (d_phases d) (map sname prev) (d_hash d) r] /\ cur = None /\ d_phases d <> []) /\
       (d' = d \/ (d' = set_cc d (bump_cc (d_cc d)) /\ cur = None /\
@@ -702,7 +705,7 @@ Section PassTheorems.
         by (right; exists r; auto).
       destruct r; try (intros H; injection H as <- <-; eexists; split; [exact Hn|]; split; [exact Hes|now left]).
       destruct (find_dset (dw_sets (p_w (read_req fault st1))) (d_hash d)) as [c|].
-      + destruct (adoptable d prev c); intros H; injection H as <- <-; eexists;
+      + destruct (adoptable rev0ok d prev c); intros H; injection H as <- <-; eexists;
           (split; [unfold news in *; rewrite read_req_evs; exact Hn|]); (split; [exact Hes|]); [now left|right; auto].
       + intros H; injection H as <- <-. eexists. split; [unfold news in *; rewrite read_req_evs; exact Hn|]. split; [exact Hes|now left].
   Qed.
@@ -752,7 +755,7 @@ Section PassTheorems.
 
   Theorem dep_pass_justified stale w w' evs r :
     NoDup (map sname (dw_sets w)) ->
-    dep_pass hash fault slices sliceaware stale w = (w', evs, r) -> Forall (justified stale w) evs.
+    dep_pass hash fault slices sliceaware rev0ok stale w = (w', evs, r) -> Forall (justified stale w) evs.
   Proof.
     intros Hnd Hp. destruct (dep_pass_unfold _ _ _ _ _ Hp) as (st3 & d2 & -> & _ & _ & Hc).
     destruct (status_req_news st3 d2) as (es & Hn & Hes). rewrite Hn.
@@ -809,7 +812,7 @@ Section PassTheorems.
 
   (** ** C07, pass level *)
   Theorem create_justified stale w w' evs r n phs prev h cr :
-    NoDup (map sname (dw_sets w)) -> dep_pass hash fault slices sliceaware stale w = (w', evs, r) -> In (DCreate n phs prev h cr) evs ->
+    NoDup (map sname (dw_sets w)) -> dep_pass hash fault slices sliceaware rev0ok stale w = (w', evs, r) -> In (DCreate n phs prev h cr) evs ->
     d_paused (dw_dep w) = false /\ d_phases (dw_dep w) <> [] /\ (forall s, In s (listed stale w) -> srev s <> 0%Z) /\
     has_current (dep_hashed w) (listed stale w) = false /\
     n = hash (d_digest (dw_dep w)) (d_cc (dw_dep w)) /\ h = n /\ phs = d_phases (dw_dep w) /\ prev = map sname (listed stale w).
@@ -820,7 +823,7 @@ Section PassTheorems.
 
   (** ** C08, pass level *)
   Theorem archive_sound stale w w' evs r n pbp ur :
-    NoDup (map sname (dw_sets w)) -> dep_pass hash fault slices sliceaware stale w = (w', evs, r) -> In (DUpdate n LArchived pbp ur) evs ->
+    NoDup (map sname (dw_sets w)) -> dep_pass hash fault slices sliceaware rev0ok stale w = (w', evs, r) -> In (DUpdate n LArchived pbp ur) evs ->
     d_paused (dw_dep w) = false /\ archivable (seen_objects slices sliceaware) (listed stale w) n.
   Proof.
     intros Hnd Hp Hin. pose proof (dep_pass_justified _ _ _ _ _ Hnd Hp) as HF. rewrite Forall_forall in HF.
@@ -828,7 +831,7 @@ Section PassTheorems.
   Qed.
 
   Theorem newest_never_archived stale w w' evs r n pbp ur :
-    NoDup (map sname (dw_sets w)) -> dep_pass hash fault slices sliceaware stale w = (w', evs, r) -> In (DUpdate n LArchived pbp ur) evs ->
+    NoDup (map sname (dw_sets w)) -> dep_pass hash fault slices sliceaware rev0ok stale w = (w', evs, r) -> In (DUpdate n LArchived pbp ur) evs ->
     exists l0 newest, listed stale w = l0 ++ [newest] /\ sname newest <> n.
   Proof.
     intros Hnd Hp Hin. apply (archivable_not_newest (seen_objects slices sliceaware)); [now apply listed_nodup|]. eapply archive_sound; eauto.
@@ -841,7 +844,7 @@ Section PassTheorems.
   Proof. now rewrite removelast_app, app_nil_r by discriminate. Qed.
 
   Theorem gc_sound stale w w' evs r n dr :
-    NoDup (map sname (dw_sets w)) -> dep_pass hash fault slices sliceaware stale w = (w', evs, r) -> In (DDelete n dr) evs ->
+    NoDup (map sname (dw_sets w)) -> dep_pass hash fault slices sliceaware rev0ok stale w = (w', evs, r) -> In (DDelete n dr) evs ->
     exists l0 newest, listed stale w = l0 ++ [newest] /\
       In n (firstn (Z.to_nat (Z.of_nat (length l0) - match d_limit (dw_dep w) with Some l => l | None => 10 end)) (map sname l0)) /\
       sname newest <> n.
@@ -856,7 +859,7 @@ Section PassTheorems.
 
   (** ** C09, deployment level *)
   Theorem paused_hands_off stale w w' evs r e :
-    NoDup (map sname (dw_sets w)) -> dep_pass hash fault slices sliceaware stale w = (w', evs, r) -> d_paused (dw_dep w) = true -> In e evs ->
+    NoDup (map sname (dw_sets w)) -> dep_pass hash fault slices sliceaware rev0ok stale w = (w', evs, r) -> d_paused (dw_dep w) = true -> In e evs ->
     (exists n ur s, e = DUpdate n LPaused true ur /\ In s (listed stale w) /\ sname s = n /\ is_archived s = false /\ paused_by_parent s = false) \/
     (exists h cc cs rv co sr, e = DStatus h cc cs rv co sr /\ cc = d_cc (dw_dep w)).
   Proof.
@@ -870,7 +873,7 @@ Section PassTheorems.
   Qed.
 
   Theorem unpause_releases_annotated stale w w' evs r n pbp ur :
-    NoDup (map sname (dw_sets w)) -> dep_pass hash fault slices sliceaware stale w = (w', evs, r) -> In (DUpdate n LActive pbp ur) evs ->
+    NoDup (map sname (dw_sets w)) -> dep_pass hash fault slices sliceaware rev0ok stale w = (w', evs, r) -> In (DUpdate n LActive pbp ur) evs ->
     d_paused (dw_dep w) = false /\ pbp = false /\
     exists s, In s (listed stale w) /\ sname s = n /\ is_archived s = false /\ is_spec_paused s = true /\ ds_pbp s = true.
   Proof.
@@ -894,6 +897,7 @@ Section Reach.
   Variable fault : option (nat * bool).
   Variable slices : N -> option (list pobj).
   Variable sliceaware : bool.
+  Variable rev0ok : bool.
 
   Inductive reach (st0 : pst) : pst -> Prop :=
   | r_refl : reach st0 st0
@@ -978,14 +982,14 @@ Section Reach.
   Qed.
 
   Lemma new_revision_reach st0 st d cur prev st' d' :
-    reach st0 st -> new_revision fault st d cur prev = (st', d') -> reach st0 st'.
+    reach st0 st -> new_revision fault rev0ok st d cur prev = (st', d') -> reach st0 st'.
   Proof.
     unfold new_revision. intros Hr. destruct cur; [intros H; now injection H as <- _|].
     destruct (is_nil (d_phases d)); [intros H; now injection H as <- _|].
     destruct (create_req fault st (new_set d prev)) as [st1 r] eqn:Ec.
     assert (H1 : reach st0 st1) by (replace st1 with (fst (create_req fault st (new_set d prev))) by (now rewrite Ec); now constructor).
     destruct r; try (intros H; now injection H as <- _).
-    destruct (find_dset _ _); [destruct (adoptable d prev d0)|]; intros H; injection H as <- _; now constructor.
+    destruct (find_dset _ _); [destruct (adoptable rev0ok d prev d0)|]; intros H; injection H as <- _; now constructor.
   Qed.
 
   (** ** The frame of a pass: [es] are the events emitted between the two states *)
@@ -1222,11 +1226,12 @@ Section PassFrame.
   Variable fault : option (nat * bool).
   Variable slices : N -> option (list pobj).
   Variable sliceaware : bool.
+  Variable rev0ok : bool.
 
   (** What one pass does to the world: ObjectSets keep their identity fields, only garbage-collected ones
       disappear, at most the ObjectSet of a successful create appears; member objects are never touched. *)
   Theorem dep_pass_frame stale w w' evs r :
-    dep_pass hash fault slices sliceaware stale w = (w', evs, r) ->
+    dep_pass hash fault slices sliceaware rev0ok stale w = (w', evs, r) ->
     (NoDup (map sname (dw_sets w)) -> NoDup (map sname (dw_sets w'))) /\
     (forall x', In x' (dw_sets w') -> (exists x, In x (dw_sets w) /\ sid x' = sid x) \/ created evs x') /\
     (forall x, In x (dw_sets w) -> (forall dr, ~ In (DDelete (sname x) dr) evs) ->
@@ -1238,7 +1243,7 @@ Section PassFrame.
      d_digest (dw_dep w') = d_digest (dw_dep w) /\ d_phases (dw_dep w') = d_phases (dw_dep w) /\ d_limit (dw_dep w') = d_limit (dw_dep w) /\
      (d_cc (dw_dep w') = d_cc (dw_dep w) \/ exists h cs rv co sr, In (DStatus h (d_cc (dw_dep w')) cs rv co sr) evs)).
   Proof.
-    intros Hp. destruct (dep_pass_unfold _ _ _ _ _ _ _ _ _ Hp) as (st3 & d2 & -> & -> & _ & Hc).
+    intros Hp. destruct (dep_pass_unfold _ _ _ _ _ _ _ _ _ _ Hp) as (st3 & d2 & -> & -> & _ & Hc).
     assert (Hr : reach fault (st_init w) (status_req fault st3 d2)).
     { constructor. assert (H0 : reach fault (st_init w) (st_listed fault w)) by (unfold st_listed; repeat constructor).
       destruct Hc as [(_ & -> & _)|(_ & stp & mem & Epl & Hc)]; [assumption|].
@@ -1485,6 +1490,7 @@ Section PassBump.
   Variable fault : option (nat * bool).
   Variable slices : N -> option (list pobj).
   Variable sliceaware : bool.
+  Variable rev0ok : bool.
 
   Definition is_update (e : dev) : Prop := match e with DUpdate _ _ _ _ => True | _ => False end.
   Definition not_create_status (e : dev) : Prop := match e with DCreate _ _ _ _ _ | DStatus _ _ _ _ _ _ => False | _ => True end.
@@ -1510,11 +1516,11 @@ Section PassBump.
 
   (** The collision counter changes only in a pass whose Create was answered AlreadyExists. *)
   Lemma dep_pass_bump stale w w' evs r h cc cs rv co sr :
-    dep_pass hash fault slices sliceaware stale w = (w', evs, r) -> In (DStatus h cc cs rv co sr) evs ->
+    dep_pass hash fault slices sliceaware rev0ok stale w = (w', evs, r) -> In (DStatus h cc cs rv co sr) evs ->
     cc = d_cc (dw_dep w) \/
     (cc = bump_cc (d_cc (dw_dep w)) /\ forall n phs prev hh cr, In (DCreate n phs prev hh cr) evs -> cr = CrExists).
   Proof.
-    intros Hp Hin. destruct (dep_pass_unfold _ _ _ _ _ _ _ _ _ Hp) as (st3 & d2 & -> & _ & _ & Hc).
+    intros Hp Hin. destruct (dep_pass_unfold _ _ _ _ _ _ _ _ _ _ Hp) as (st3 & d2 & -> & _ & _ & Hc).
     destruct (status_req_news fault st3 d2) as (ess & Hn & Hess). rewrite Hn in *.
     assert (Hfin : forall es3, p_evs st3 = es3 -> Forall (fun e => match e with DStatus _ _ _ _ _ _ => False | _ => True end) es3 ->
               (d_cc d2 = d_cc (dw_dep w) \/ (d_cc d2 = bump_cc (d_cc (dw_dep w)) /\ forall n phs prev hh cr, In (DCreate n phs prev hh cr) es3 -> cr = CrExists)) ->
@@ -1533,7 +1539,7 @@ Section PassBump.
       + apply (Hfin esp Hnp).
         * eapply Forall_impl; [|exact Hesp']. intros []; auto.
         * left. now destruct (set_status_keeps (dep_hashed hash w) (fst (split_current (has_current (dep_hashed hash w) (listed stale w)) mem)) (snd (split_current (has_current (dep_hashed hash w) (listed stale w)) mem))) as (_ & -> & _).
-      + destruct (new_revision_spec _ _ _ _ _ _ _ Enr) as (esn & Hnn & Hesn & Hd3).
+      + destruct (new_revision_spec _ _ _ _ _ _ _ _ Enr) as (esn & Hnn & Hesn & Hd3).
         destruct (archive_news fault slices sliceaware _ _ _ _ _ _ Ear) as (esa & Hna & _ & Hesa).
         unfold news in Hnn, Hna.
         assert (Hesa' : Forall (fun e => match e with DStatus _ _ _ _ _ _ => False | DCreate _ _ _ _ _ => False | _ => True end) esa).
@@ -1557,6 +1563,7 @@ Section Histories.
   Variable hash : N -> option N -> N.
   Variable slices : N -> option (list pobj).
   Variable sliceaware : bool.
+  Variable rev0ok : bool.
 
   (** The steps the history theorems quantify over: everything except a stale List. *)
   Definition ok_step (s : step) : Prop :=
@@ -1574,14 +1581,14 @@ Section Histories.
   Proof. intros (r & H & _). now exists r. Qed.
 
   Lemma inv_dep_pass fault w w' evs r :
-    Inv w -> dep_pass hash fault slices sliceaware false w = (w', evs, r) -> Inv w'.
+    Inv w -> dep_pass hash fault slices sliceaware rev0ok false w = (w', evs, r) -> Inv w'.
   Proof.
-    intros [U1 U2 U3] Hp. destruct (dep_pass_frame _ _ _ _ _ _ _ _ _ Hp) as (Hnd & Hold & _).
+    intros [U1 U2 U3] Hp. destruct (dep_pass_frame _ _ _ _ _ _ _ _ _ _ Hp) as (Hnd & Hold & _).
     assert (Hcr : forall x', created evs x' -> srev x' = 0%Z /\ ds_sel x' = true /\
                    (forall s, In s (dw_sets w) -> ds_sel s = true -> srev s <> 0%Z /\ In (sname s) (os_prev (ds_set x'))) /\
                    sname x' = hash (d_digest (dw_dep w)) (d_cc (dw_dep w))).
     { intros x' Hc. pose proof Hc as (rr & Hi & _ & H0 & Hs & _).
-      destruct (create_justified _ _ _ _ _ _ _ _ _ _ _ _ _ _ U1 Hp Hi) as (_ & _ & Hn0 & _ & Hn & _ & _ & Hprev).
+      destruct (create_justified _ _ _ _ _ _ _ _ _ _ _ _ _ _ _ U1 Hp Hi) as (_ & _ & Hn0 & _ & Hn & _ & _ & Hprev).
       repeat split; auto.
       - apply Hn0. now apply listed_fresh_iff.
       - rewrite Hprev. apply in_map. now apply listed_fresh_iff. }
@@ -1619,9 +1626,9 @@ Section Histories.
 
   Lemma do_step_oset w s :
     Inv w -> ok_step s -> (forall st f, s <> SDep st f) ->
-    oset_step (dw_sets w) (dw_sets (do_step hash slices sliceaware w s)) /\
-    ((forall dg phs, s <> SEdit dg phs) -> d_digest (dw_dep (do_step hash slices sliceaware w s)) = d_digest (dw_dep w)) /\
-    d_cc (dw_dep (do_step hash slices sliceaware w s)) = d_cc (dw_dep w).
+    oset_step (dw_sets w) (dw_sets (do_step hash slices sliceaware rev0ok w s)) /\
+    ((forall dg phs, s <> SEdit dg phs) -> d_digest (dw_dep (do_step hash slices sliceaware rev0ok w s)) = d_digest (dw_dep w)) /\
+    d_cc (dw_dep (do_step hash slices sliceaware rev0ok w s)) = d_cc (dw_dep w).
   Proof.
     intros HI Hok Hnd. pose proof (i_nodup _ HI) as U1. destruct s; cbn [do_step].
     - rewrite edit_dep_sets. split; [apply oset_step_refl|]. split; [intros H; now elim (H dg phs)|]. unfold edit_dep. destruct (negb _ || negb _); reflexivity.
@@ -1645,17 +1652,17 @@ Section Histories.
       destruct (o_avail o =? avail); split; try apply oset_step_refl; auto.
   Qed.
 
-  Theorem inv_step w s : Inv w -> ok_step s -> Inv (do_step hash slices sliceaware w s).
+  Theorem inv_step w s : Inv w -> ok_step s -> Inv (do_step hash slices sliceaware rev0ok w s).
   Proof.
     intros HI Hok. destruct s as [dg phs|b|l|stale fault|force n|n|n cs co coset|n|k a];
       try (eapply inv_oset_step; [exact HI|]; apply do_step_oset; auto; intros st f; discriminate).
-    - cbn in Hok. subst stale. cbn [do_step]. destruct (dep_pass hash fault slices sliceaware false w) as [[w' evs] r] eqn:Ep. eapply inv_dep_pass; eauto.
+    - cbn in Hok. subst stale. cbn [do_step]. destruct (dep_pass hash fault slices sliceaware rev0ok false w) as [[w' evs] r] eqn:Ep. eapply inv_dep_pass; eauto.
   Qed.
 
   (** Revision numbers: never changed by the deployment controller; by the ObjectSet side only from 0 to a number
       greater than the revision of every other ObjectSet of the deployment. *)
   Theorem revisions_of_step w s x x' :
-    Inv w -> ok_step s -> In x (dw_sets w) -> In x' (dw_sets (do_step hash slices sliceaware w s)) -> sname x' = sname x ->
+    Inv w -> ok_step s -> In x (dw_sets w) -> In x' (dw_sets (do_step hash slices sliceaware rev0ok w s)) -> sname x' = sname x ->
     srev x' = srev x \/
     (srev x = 0%Z /\ srev x' <> 0%Z /\
      (ds_sel x = true -> forall b, In b (dw_sets w) -> ds_sel b = true -> sname b <> sname x -> (srev b < srev x')%Z)) \/
@@ -1668,15 +1675,15 @@ Section Histories.
            assert (x0 = x) by (apply (NoDup_map_eq sname (dw_sets w)); auto; congruence); subst x0;
            destruct R0 as [R0|(R00 & R0n & R0b)]; [left; exact R0|right; left; split; [assumption|]; split; [assumption|];
              intros Hsel bb Hb Hsb Hne; apply R0b; [assumption|]; apply (i_zero _ HI x bb); auto]).
-    - cbn in Hok. subst stale. cbn [do_step] in Hx'. destruct (dep_pass hash fault slices sliceaware false w) as [[w' evs] r] eqn:Ep.
-      destruct (dep_pass_frame _ _ _ _ _ _ _ _ _ Ep) as (_ & Hold & _).
+    - cbn in Hok. subst stale. cbn [do_step] in Hx'. destruct (dep_pass hash fault slices sliceaware rev0ok false w) as [[w' evs] r] eqn:Ep.
+      destruct (dep_pass_frame _ _ _ _ _ _ _ _ _ _ Ep) as (_ & Hold & _).
       destruct (Hold x' Hx') as [(x0 & Hx0 & E0)|(rr & _ & _ & R0 & _)].
       + assert (E' : sname x' = sname x0 /\ srev x' = srev x0) by (unfold sid in E0; injection E0; auto). destruct E' as (N0 & R0).
         assert (x0 = x) by (apply (NoDup_map_eq sname (dw_sets w)); auto; congruence). subst x0. left. exact R0.
       + right. right. exists false, fault. auto.
   Qed.
 
-  Theorem inv_run h : forall w, Inv w -> Forall ok_step h -> Inv (run hash slices sliceaware w h).
+  Theorem inv_run h : forall w, Inv w -> Forall ok_step h -> Inv (run hash slices sliceaware rev0ok w h).
   Proof.
     induction h as [|s r IH]; cbn; intros w HI HF; [assumption|]. inversion HF; subst. apply IH; [now apply inv_step|assumption].
   Qed.
@@ -1687,6 +1694,7 @@ Section ExactlyOne.
   Variable hash : N -> option N -> N.
   Variable slices : N -> option (list pobj).
   Variable sliceaware : bool.
+  Variable rev0ok : bool.
 
   Definition cur_hash (w : dworld) : N := hash (d_digest (dw_dep w)) (d_cc (dw_dep w)).
 
@@ -1721,24 +1729,24 @@ Section ExactlyOne.
   (** While the template is matched, a pass neither creates an ObjectSet nor touches the collision counter,
       and the template stays matched. *)
   Lemma matched_dep_pass fault w w' evs r :
-    Inv w -> matched w -> dep_pass hash fault slices sliceaware false w = (w', evs, r) ->
+    Inv w -> matched w -> dep_pass hash fault slices sliceaware rev0ok false w = (w', evs, r) ->
     (forall n phs prev h cr, ~ In (DCreate n phs prev h cr) evs) /\ matched w'.
   Proof.
     intros HI (s & Hs & Hsel & Hh & Hdel & Hmax) Hp. pose proof (i_nodup _ HI) as U1.
     pose proof (matched_listed w s U1 Hs Hsel Hh Hmax) as Hcase.
     assert (Hnc : forall n phs prev h cr, ~ In (DCreate n phs prev h cr) evs).
-    { intros n phs prev h cr Hi. destruct (create_justified _ _ _ _ _ _ _ _ _ _ _ _ _ _ U1 Hp Hi) as (_ & _ & Hn0 & Hhc & _).
+    { intros n phs prev h cr Hi. destruct (create_justified _ _ _ _ _ _ _ _ _ _ _ _ _ _ _ U1 Hp Hi) as (_ & _ & Hn0 & Hhc & _).
       destruct Hcase as [(E0 & HsL)|(_ & _ & Hc)]; [exact (Hn0 s HsL E0)|congruence]. }
     split; [exact Hnc|].
-    destruct (dep_pass_frame _ _ _ _ _ _ _ _ _ Hp) as (_ & Hold & Hkeep & _ & _ & (_ & _ & _ & Hdg & _ & _ & Hcc)).
+    destruct (dep_pass_frame _ _ _ _ _ _ _ _ _ _ Hp) as (_ & Hold & Hkeep & _ & _ & (_ & _ & _ & Hdg & _ & _ & Hcc)).
     assert (Hcc' : d_cc (dw_dep w') = d_cc (dw_dep w)).
     { destruct Hcc as [Hcc|(h & cs & rv & co & sr & Hi)]; [assumption|].
-      pose proof (dep_pass_justified _ _ _ _ _ _ _ _ _ U1 Hp) as HF. rewrite Forall_forall in HF. specialize (HF _ Hi). cbn in HF.
+      pose proof (dep_pass_justified _ _ _ _ _ _ _ _ _ _ U1 Hp) as HF. rewrite Forall_forall in HF. specialize (HF _ Hi). cbn in HF.
       destruct HF as (_ & [Hc|(_ & _ & Hhc & Hn0)]); [assumption|].
       destruct Hcase as [(E0 & HsL)|(_ & _ & Hc)]; [elim (Hn0 s HsL E0)|congruence]. }
     destruct (Hkeep s Hs) as (s' & Hs' & Es & Ds).
-    { intros dr Hi. destruct (gc_sound _ _ _ _ _ _ _ _ _ _ _ U1 Hp Hi) as (l0 & newest & EL & _ & Hne).
-      pose proof (dep_pass_justified _ _ _ _ _ _ _ _ _ U1 Hp) as HF. rewrite Forall_forall in HF. specialize (HF _ Hi). cbn in HF.
+    { intros dr Hi. destruct (gc_sound _ _ _ _ _ _ _ _ _ _ _ _ U1 Hp Hi) as (l0 & newest & EL & _ & Hne).
+      pose proof (dep_pass_justified _ _ _ _ _ _ _ _ _ _ U1 Hp) as HF. rewrite Forall_forall in HF. specialize (HF _ Hi). cbn in HF.
       destruct HF as (_ & Hn0 & _). destruct Hcase as [(E0 & HsL)|(_ & (l1 & EL1) & _)]; [exact (Hn0 s HsL E0)|].
       rewrite EL in EL1. apply app_inj_tail in EL1. destruct EL1 as [_ ->]. now apply Hne. }
     assert (Es' : sname s' = sname s /\ srev s' = srev s /\ ds_sel s' = ds_sel s /\ ds_hash s' = ds_hash s) by (unfold sid in Es; injection Es; auto).
@@ -1768,28 +1776,28 @@ Section ExactlyOne.
 
   (** A pass that creates an ObjectSet leaves the template matched. *)
   Lemma creating_pass_matches fault w w' evs r n :
-    Inv w -> dep_pass hash fault slices sliceaware false w = (w', evs, r) -> created_name evs = Some n -> matched w'.
+    Inv w -> dep_pass hash fault slices sliceaware rev0ok false w = (w', evs, r) -> created_name evs = Some n -> matched w'.
   Proof.
     intros HI Hp Hcn. pose proof (i_nodup _ HI) as U1.
     destruct (created_name_some _ _ Hcn) as (phs & prev & h & cr & Hi & Hcr).
-    destruct (create_justified _ _ _ _ _ _ _ _ _ _ _ _ _ _ U1 Hp Hi) as (_ & _ & Hn0 & Hhc & Hn & Hh & _ & _).
-    pose proof (dep_pass_justified _ _ _ _ _ _ _ _ _ U1 Hp) as HF. rewrite Forall_forall in HF.
-    destruct (dep_pass_frame _ _ _ _ _ _ _ _ _ Hp) as (_ & Hold & _ & Hnew & _ & (_ & _ & _ & Hdg & _ & _ & Hcc)).
+    destruct (create_justified _ _ _ _ _ _ _ _ _ _ _ _ _ _ _ U1 Hp Hi) as (_ & _ & Hn0 & Hhc & Hn & Hh & _ & _).
+    pose proof (dep_pass_justified _ _ _ _ _ _ _ _ _ _ U1 Hp) as HF. rewrite Forall_forall in HF.
+    destruct (dep_pass_frame _ _ _ _ _ _ _ _ _ _ Hp) as (_ & Hold & _ & Hnew & _ & (_ & _ & _ & Hdg & _ & _ & Hcc)).
     destruct (Hnew _ _ _ _ _ Hi Hcr) as (x' & Hx' & Nx & Hc & Dx).
     { intros dr Hd. specialize (HF _ Hd). cbn in HF. destruct HF as (_ & _ & Hc & _). congruence. }
     assert (Hcc' : d_cc (dw_dep w') = d_cc (dw_dep w)).
     { destruct Hcc as [Hcc|(h0 & cs & rv & co & sr & His)]; [assumption|].
-      destruct (dep_pass_bump _ _ _ _ _ _ _ _ _ _ _ _ _ _ _ Hp His) as [Hc0|(_ & Hall)]; [assumption|].
+      destruct (dep_pass_bump _ _ _ _ _ _ _ _ _ _ _ _ _ _ _ _ Hp His) as [Hc0|(_ & Hall)]; [assumption|].
       specialize (Hall _ _ _ _ _ Hi). destruct Hcr; congruence. }
     pose proof Hc as (rr & Hix & _ & R0 & Sx & (hx & Hhx)).
-    destruct (create_justified _ _ _ _ _ _ _ _ _ _ _ _ _ _ U1 Hp Hix) as (_ & _ & _ & _ & _ & Hh' & _ & _). rewrite Hhx in Hh'.
+    destruct (create_justified _ _ _ _ _ _ _ _ _ _ _ _ _ _ _ U1 Hp Hix) as (_ & _ & _ & _ & _ & Hh' & _ & _). rewrite Hhx in Hh'.
     exists x'. unfold cur_hash in *. rewrite Hdg, Hcc'. split; [assumption|]. split; [assumption|]. split; [congruence|]. split; [assumption|].
     intros t Ht Hst Hne. split; [|now left].
     destruct (Hold t Ht) as [(t0 & Ht0 & Et)|Hct].
     - assert (Et' : srev t = srev t0 /\ ds_sel t = ds_sel t0) by (unfold sid in Et; injection Et; auto). destruct Et' as (Rt & St).
       rewrite Rt. apply Hn0. apply listed_fresh_iff. split; [assumption|congruence].
     - exfalso. destruct (created_event _ _ Hct) as (r2 & Hi2).
-      destruct (create_justified _ _ _ _ _ _ _ _ _ _ _ _ _ _ U1 Hp Hi2) as (_ & _ & _ & _ & Hn2 & _). congruence.
+      destruct (create_justified _ _ _ _ _ _ _ _ _ _ _ _ _ _ _ U1 Hp Hi2) as (_ & _ & _ & _ & Hn2 & _). congruence.
   Qed.
 
   (** Matched-ness survives every step of the ObjectSet side and every deployment edit that keeps the template. *)
@@ -1812,7 +1820,7 @@ Section ExactlyOne.
   (** *** Counting creations and template changes along a history *)
   Definition creates_b (w : dworld) (s : step) : bool :=
     match s with
-    | SDep stale fault => let '(_, evs, _) := dep_pass hash fault slices sliceaware stale w in match created_name evs with Some _ => true | None => false end
+    | SDep stale fault => let '(_, evs, _) := dep_pass hash fault slices sliceaware rev0ok stale w in match created_name evs with Some _ => true | None => false end
     | _ => false
     end.
   Definition changes_b (w : dworld) (s : step) : bool :=
@@ -1821,32 +1829,32 @@ Section ExactlyOne.
     | _ => false
     end.
   Fixpoint count_creates (w : dworld) (h : list step) : nat :=
-    match h with [] => O | s :: r => ((if creates_b w s then 1 else 0) + count_creates (do_step hash slices sliceaware w s) r)%nat end.
+    match h with [] => O | s :: r => ((if creates_b w s then 1 else 0) + count_creates (do_step hash slices sliceaware rev0ok w s) r)%nat end.
   Fixpoint count_changes (w : dworld) (h : list step) : nat :=
-    match h with [] => O | s :: r => ((if changes_b w s then 1 else 0) + count_changes (do_step hash slices sliceaware w s) r)%nat end.
+    match h with [] => O | s :: r => ((if changes_b w s then 1 else 0) + count_changes (do_step hash slices sliceaware rev0ok w s) r)%nat end.
 
   Lemma matched_step w s : Inv w -> matched w -> ok_step s -> changes_b w s = false ->
-    creates_b w s = false /\ matched (do_step hash slices sliceaware w s).
+    creates_b w s = false /\ matched (do_step hash slices sliceaware rev0ok w s).
   Proof.
     intros HI HM Hok Hch. destruct s as [dg phs|b|l|stale fault|force n|n|n cs co coset|n|k a].
     - split; [reflexivity|]. cbn in Hch. cbn [do_step]. rewrite Hch. exact HM.
-    - split; [reflexivity|]. eapply matched_oset_step; eauto; apply (do_step_oset hash slices sliceaware w (SPause b)); auto; intros; discriminate.
-    - split; [reflexivity|]. eapply matched_oset_step; eauto; apply (do_step_oset hash slices sliceaware w (SLimit l)); auto; intros; discriminate.
-    - cbn in Hok. subst stale. cbn [creates_b do_step]. destruct (dep_pass hash fault slices sliceaware false w) as [[w' evs] r] eqn:Ep.
+    - split; [reflexivity|]. eapply matched_oset_step; eauto; apply (do_step_oset hash slices sliceaware rev0ok w (SPause b)); auto; intros; discriminate.
+    - split; [reflexivity|]. eapply matched_oset_step; eauto; apply (do_step_oset hash slices sliceaware rev0ok w (SLimit l)); auto; intros; discriminate.
+    - cbn in Hok. subst stale. cbn [creates_b do_step]. destruct (dep_pass hash fault slices sliceaware rev0ok false w) as [[w' evs] r] eqn:Ep.
       destruct (matched_dep_pass _ _ _ _ _ HI HM Ep) as (Hnc & HM'). split; [|exact HM'].
       destruct (created_name evs) as [n|] eqn:Ec; [|reflexivity].
       destruct (created_name_some _ _ Ec) as (a & b & c & d & Hi & _). elim (Hnc _ _ _ _ _ Hi).
     - destruct Hok.
-    - split; [reflexivity|]. eapply matched_oset_step; eauto; apply (do_step_oset hash slices sliceaware w (SRev n)); auto; intros; discriminate.
-    - split; [reflexivity|]. eapply matched_oset_step; eauto; apply (do_step_oset hash slices sliceaware w (SStat n cs co coset)); auto; intros; discriminate.
-    - split; [reflexivity|]. eapply matched_oset_step; eauto; apply (do_step_oset hash slices sliceaware w (SVanish n)); auto; intros; discriminate.
-    - split; [reflexivity|]. eapply matched_oset_step; eauto; apply (do_step_oset hash slices sliceaware w (SMember k a)); auto; intros; discriminate.
+    - split; [reflexivity|]. eapply matched_oset_step; eauto; apply (do_step_oset hash slices sliceaware rev0ok w (SRev n)); auto; intros; discriminate.
+    - split; [reflexivity|]. eapply matched_oset_step; eauto; apply (do_step_oset hash slices sliceaware rev0ok w (SStat n cs co coset)); auto; intros; discriminate.
+    - split; [reflexivity|]. eapply matched_oset_step; eauto; apply (do_step_oset hash slices sliceaware rev0ok w (SVanish n)); auto; intros; discriminate.
+    - split; [reflexivity|]. eapply matched_oset_step; eauto; apply (do_step_oset hash slices sliceaware rev0ok w (SMember k a)); auto; intros; discriminate.
   Qed.
 
-  Lemma creating_step_matches w s : Inv w -> ok_step s -> creates_b w s = true -> matched (do_step hash slices sliceaware w s).
+  Lemma creating_step_matches w s : Inv w -> ok_step s -> creates_b w s = true -> matched (do_step hash slices sliceaware rev0ok w s).
   Proof.
     intros HI Hok Hc. destruct s; try discriminate. cbn in Hok. subst stale. cbn [creates_b do_step] in *.
-    destruct (dep_pass hash fault slices sliceaware false w) as [[w' evs] r] eqn:Ep. destruct (created_name evs) as [n|] eqn:Ec; [|discriminate].
+    destruct (dep_pass hash fault slices sliceaware rev0ok false w) as [[w' evs] r] eqn:Ep. destruct (created_name evs) as [n|] eqn:Ec; [|discriminate].
     eapply creating_pass_matches; eauto.
   Qed.
 
@@ -1854,7 +1862,7 @@ Section ExactlyOne.
     (matched w -> (count_creates w h <= count_changes w h)%nat) /\ (count_creates w h <= 1 + count_changes w h)%nat.
   Proof.
     induction h as [|s r IH]; intros w HI HF; [cbn; split; intros; lia|]. inversion HF as [|? ? Hok HFr]; subst.
-    pose proof (inv_step hash slices sliceaware w s HI Hok) as HI'. destruct (IH _ HI' HFr) as (IHm & IHb). cbn [count_creates count_changes].
+    pose proof (inv_step hash slices sliceaware rev0ok w s HI Hok) as HI'. destruct (IH _ HI' HFr) as (IHm & IHb). cbn [count_creates count_changes].
     destruct (changes_b w s) eqn:Ech.
     - assert (Hnc : creates_b w s = false) by (destruct s; try reflexivity; discriminate). rewrite Hnc. split; intros; lia.
     - split.
@@ -1868,6 +1876,7 @@ Section NoFault.
   Variable hash : N -> option N -> N.
   Variable slices : N -> option (list pobj).
   Variable sliceaware : bool.
+  Variable rev0ok : bool.
   Let fault : option (nat * bool) := None.
 
   Lemma read_req_alive st : p_dead st = false -> p_dead (read_req fault st) = false.
@@ -1930,11 +1939,11 @@ Section NoFault.
   (** C09: a pass of a paused deployment, all revisions reported: exactly the pause updates and the status. *)
   Theorem paused_pass_exact stale w w' evs r :
     NoDup (map sname (dw_sets w)) -> d_paused (dw_dep w) = true -> has_rev0 (listed stale w) = false ->
-    dep_pass hash fault slices sliceaware stale w = (w', evs, r) ->
+    dep_pass hash fault slices sliceaware rev0ok stale w = (w', evs, r) ->
     r = DpDone /\ exists h cc cs rv co,
       evs = map (pause_update true) (filter (needs_pause_update true) (listed stale w)) ++ [DStatus h cc cs rv co WOk].
   Proof.
-    intros Hnd Hpa H0 Hp. destruct (dep_pass_unfold _ _ _ _ _ _ _ _ _ Hp) as (st3 & d2 & -> & _ & -> & Hc).
+    intros Hnd Hpa H0 Hp. destruct (dep_pass_unfold _ _ _ _ _ _ _ _ _ _ Hp) as (st3 & d2 & -> & _ & -> & Hc).
     destruct Hc as [(E0 & _)|(_ & stp & mem & Epl & Hc)]; [congruence|].
     destruct Hc as [(_ & -> & ->)|(Epa & _)]; [|cbn in Epa; congruence].
     assert (Hal : p_dead (st_listed fault w) = false) by (unfold st_listed; now rewrite !read_req_alive).
@@ -1950,12 +1959,12 @@ Section NoFault.
   (** C09: unpausing releases exactly the non-archived revisions carrying the paused-by-parent state. *)
   Theorem unpause_exact stale w w' evs r :
     NoDup (map sname (dw_sets w)) -> d_paused (dw_dep w) = false -> has_rev0 (listed stale w) = false ->
-    dep_pass hash fault slices sliceaware stale w = (w', evs, r) ->
+    dep_pass hash fault slices sliceaware rev0ok stale w = (w', evs, r) ->
     exists rest, evs = map (pause_update false) (filter (needs_pause_update false) (listed stale w)) ++ rest /\
                  forall n life pbp ur, In (DUpdate n life pbp ur) rest -> life <> LActive.
   Proof.
-    intros Hnd Hpa H0 Hp. pose proof (dep_pass_justified _ _ _ _ _ _ _ _ _ Hnd Hp) as HJ.
-    destruct (dep_pass_unfold _ _ _ _ _ _ _ _ _ Hp) as (st3 & d2 & -> & _ & _ & Hc).
+    intros Hnd Hpa H0 Hp. pose proof (dep_pass_justified _ _ _ _ _ _ _ _ _ _ Hnd Hp) as HJ.
+    destruct (dep_pass_unfold _ _ _ _ _ _ _ _ _ _ Hp) as (st3 & d2 & -> & _ & _ & Hc).
     destruct Hc as [(E0 & _)|(_ & stp & mem & Epl & Hc)]; [congruence|].
     destruct Hc as [(Epa & _)|(_ & sta & d3 & mem' & Enr & Ear & ->)]; [cbn in Epa; congruence|].
     assert (Hal : p_dead (st_listed fault w) = false) by (unfold st_listed; now rewrite !read_req_alive).
@@ -1963,7 +1972,7 @@ Section NoFault.
     { intros s Hs. rewrite st_listed_w. apply nodup_find; [assumption|]. now apply listed_in in Hs. }
     destruct (pause_loop_exact _ _ _ _ _ Hal (listed_nodup _ _ Hnd) Hst Epl) as (Hal' & He).
     rewrite st_listed_evs in He. cbn [app] in He. change (d_paused (dep_hashed hash w)) with (d_paused (dw_dep w)) in He. rewrite Hpa in He.
-    destruct (new_revision_spec _ _ _ _ _ _ _ Enr) as (esn & Hnn & Hesn & _).
+    destruct (new_revision_spec _ _ _ _ _ _ _ _ Enr) as (esn & Hnn & Hesn & _).
     destruct (archive_news fault slices sliceaware _ _ _ _ _ _ Ear) as (esa & Hna & _ & Hesa).
     destruct (status_req_news fault st3 (set_status d3 (fst (split_current (has_current (dep_hashed hash w) (listed stale w)) mem'))
                                                        (snd (split_current (has_current (dep_hashed hash w) (listed stale w)) mem')))) as (ess & Hns & Hess).
@@ -2042,12 +2051,12 @@ Section NoFault.
     NoDup (map sname (dw_sets w)) -> d_paused (dw_dep w) = false -> d_phases (dw_dep w) <> [] ->
     has_rev0 (listed stale w) = false -> has_current (dep_hashed hash w) (listed stale w) = false ->
     find_dset (dw_sets w) (hash (d_digest (dw_dep w)) (d_cc (dw_dep w))) = None ->
-    dep_pass hash fault slices sliceaware stale w = (w', evs, r) ->
+    dep_pass hash fault slices sliceaware rev0ok stale w = (w', evs, r) ->
     In (DCreate (hash (d_digest (dw_dep w)) (d_cc (dw_dep w))) (d_phases (dw_dep w)) (map sname (listed stale w))
                 (hash (d_digest (dw_dep w)) (d_cc (dw_dep w))) CrOk) evs.
   Proof.
     intros Hnd Hpa Hph H0 Hhc Hfree Hp.
-    destruct (dep_pass_unfold _ _ _ _ _ _ _ _ _ Hp) as (st3 & d2 & -> & _ & _ & Hc).
+    destruct (dep_pass_unfold _ _ _ _ _ _ _ _ _ _ Hp) as (st3 & d2 & -> & _ & _ & Hc).
     destruct Hc as [(E0 & _)|(_ & stp & mem & Epl & Hc)]; [congruence|].
     destruct Hc as [(Epa & _)|(_ & sta & d3 & mem' & Enr & Ear & ->)]; [cbn in Epa; congruence|].
     change (d_paused (dep_hashed hash w)) with (d_paused (dw_dep w)) in Epl.
@@ -2087,15 +2096,16 @@ Section NoFault.
     has_rev0 (listed stale w) = false -> has_current (dep_hashed hash w) (listed stale w) = false ->
     In c (dw_sets w) -> sname c = hash (d_digest (dw_dep w)) (d_cc (dw_dep w)) ->
     (is_archived c = true \/ phases_eqb (d_phases (dw_dep w)) (os_phases (ds_set c)) = false \/
-     ds_ctrl c <> oi_uid (d_id (dw_dep w)) \/ (srev c < latest_revision (listed stale w))%Z) ->
-    dep_pass hash fault slices sliceaware stale w = (w', evs, r) ->
+     ds_ctrl c <> oi_uid (d_id (dw_dep w)) \/
+     ((srev c < latest_revision (listed stale w))%Z /\ (rev0ok = false \/ srev c <> 0%Z))) ->
+    dep_pass hash fault slices sliceaware rev0ok stale w = (w', evs, r) ->
     r = DpDone /\ created_name evs = None /\
     In (DCreate (sname c) (d_phases (dw_dep w)) (map sname (listed stale w)) (sname c) CrExists) evs /\
     d_cc (dw_dep w') = bump_cc (d_cc (dw_dep w)) /\
     exists c', In c' (dw_sets w') /\ sid c' = sid c.
   Proof.
     intros Hnd Hpa Hph H0 Hhc Hc Hn Hwhy Hp.
-    destruct (dep_pass_unfold _ _ _ _ _ _ _ _ _ Hp) as (st3 & d2 & -> & -> & -> & Hcs).
+    destruct (dep_pass_unfold _ _ _ _ _ _ _ _ _ _ Hp) as (st3 & d2 & -> & -> & -> & Hcs).
     destruct Hcs as [(E0 & _)|(_ & stp & mem & Epl & Hcs)]; [congruence|].
     destruct Hcs as [(Epa & _)|(_ & sta & d3 & mem' & Enr & Ear & ->)]; [cbn in Epa; congruence|].
     change (d_paused (dep_hashed hash w)) with (d_paused (dw_dep w)) in Epl.
@@ -2103,12 +2113,12 @@ Section NoFault.
     rewrite Hhc, split_current_false in Enr. cbn [fst snd] in Enr.
     set (d1 := dep_hashed hash w) in *. set (h := hash (d_digest (dw_dep w)) (d_cc (dw_dep w))) in *.
     (* the holder after the pause propagation *)
-    assert (Hc1 : exists c1, find_dset (dw_sets (p_w stp)) h = Some c1 /\ sid c1 = sid c /\ adoptable d1 mem c1 = false).
+    assert (Hc1 : exists c1, find_dset (dw_sets (p_w stp)) h = Some c1 /\ sid c1 = sid c /\ adoptable rev0ok d1 mem c1 = false).
     { destruct (Hkeep c Hc) as (c' & Hc' & Ec').
       assert (En' : sname c' = h) by (unfold sid in Ec'; injection Ec'; intros; congruence).
       assert (Efields : srev c' = srev c /\ ds_ctrl c' = ds_ctrl c /\ os_phases (ds_set c') = os_phases (ds_set c)) by (unfold sid in Ec'; injection Ec'; auto).
       destruct Efields as (Er & Ect & Eph).
-      destruct Hwhy as [Ha|[Hs|[Hct|Hr]]].
+      destruct Hwhy as [Ha|[Hs|[Hct|(Hr & Hr0)]]].
       - pose proof (Harch c Hc Ha) as Hin. exists c. split; [rewrite <- Hn; now apply nodup_find|]. split; [reflexivity|].
         unfold adoptable. now rewrite Ha.
       - exists c'. split; [rewrite <- En'; now apply nodup_find|]. split; [assumption|].
@@ -2118,7 +2128,9 @@ Section NoFault.
         assert ((ds_ctrl c =? oi_uid (d_id (dw_dep w))) = false) by now apply N.eqb_neq. rewrite H. now rewrite !andb_false_r.
       - exists c'. split; [rewrite <- En'; now apply nodup_find|]. split; [assumption|].
         unfold adoptable. rewrite Er, <- (latest_revision_core _ _ HF).
-        assert ((latest_revision (listed stale w) <=? srev c)%Z = false) by (apply Z.leb_gt; lia). rewrite H. now rewrite andb_false_r. }
+        assert ((latest_revision (listed stale w) <=? srev c)%Z = false) by (apply Z.leb_gt; lia). rewrite H.
+        assert ((rev0ok && (srev c =? 0)%Z) = false) by (destruct Hr0 as [-> |Hr0]; [reflexivity|apply Z.eqb_neq in Hr0; rewrite Hr0; apply andb_false_r]).
+        rewrite H1. cbn. now rewrite andb_false_r. }
     destruct Hc1 as (c1 & Hf1 & Es1 & Had).
     assert (Hnn : is_nil (d_phases d1) = false).
     { change (d_phases d1) with (d_phases (dw_dep w)). destruct (d_phases (dw_dep w)); [now elim Hph|reflexivity]. }
@@ -2217,16 +2229,22 @@ Section Witness.
     [SDep false None; SDep true None; SRev 100; SDep false None].
 
   Lemma wit_two_creates :
-    count_creates wit_hash no_slices false wit_w0 wit_stale_history = 2%nat /\
-    count_changes wit_hash no_slices false wit_w0 wit_stale_history = 0%nat /\
-    map (fun s => (sname s, srev s, phases_eqb (os_phases (ds_set s)) tmpl1)) (dw_sets (run wit_hash no_slices false wit_w0 wit_stale_history)) =
+    count_creates wit_hash no_slices false false wit_w0 wit_stale_history = 2%nat /\
+    count_changes wit_hash no_slices false false wit_w0 wit_stale_history = 0%nat /\
+    map (fun s => (sname s, srev s, phases_eqb (os_phases (ds_set s)) tmpl1)) (dw_sets (run wit_hash no_slices false false wit_w0 wit_stale_history)) =
       [(200, 1%Z, false); (100, 2%Z, true); (101, 0%Z, true)].
   Proof. vm_compute. repeat split. Qed.
 
   (** Without the stale List the same schedule creates one ObjectSet. *)
   Lemma wit_fresh_one_create :
-    count_creates wit_hash no_slices false wit_w0 [SDep false None; SDep false None; SRev 100; SDep false None] = 1%nat.
+    count_creates wit_hash no_slices false false wit_w0 [SDep false None; SDep false None; SRev 100; SDep false None] = 1%nat.
   Proof. vm_compute. reflexivity. Qed.
+
+  (** With the repaired "slow cache" test the same schedule creates one ObjectSet and bumps nothing. *)
+  Lemma wit_stale_repaired :
+    count_creates wit_hash no_slices false true wit_w0 wit_stale_history = 1%nat /\
+    d_cc (dw_dep (run wit_hash no_slices false true wit_w0 wit_stale_history)) = None.
+  Proof. vm_compute. split; reflexivity. Qed.
 
   (** The template is edited while the created ObjectSet is not yet listed: two ObjectSets with the same
       previous list, hence the same revision number. *)
@@ -2234,7 +2252,7 @@ Section Witness.
     [SDep false None; SEdit 3 tmpl3; SDep true None; SRev 100; SRev 300].
 
   Lemma wit_same_revision :
-    map (fun s => (sname s, srev s, os_prev (ds_set s))) (dw_sets (run wit_hash no_slices false wit_w0 wit_edit_history)) =
+    map (fun s => (sname s, srev s, os_prev (ds_set s))) (dw_sets (run wit_hash no_slices false false wit_w0 wit_edit_history)) =
       [(200, 1%Z, []); (100, 2%Z, [200]); (300, 2%Z, [200])].
   Proof. vm_compute. reflexivity. Qed.
 
@@ -2245,9 +2263,9 @@ Section Witness.
 
   Lemma wit_rollback :
     map (fun s => (sname s, srev s, phases_eqb (os_phases (ds_set s)) tmpl1, os_prev (ds_set s)))
-        (dw_sets (run wit_hash no_slices false wit_rollback_world [SDep false None; SDep false None; SRev 101])) =
+        (dw_sets (run wit_hash no_slices false false wit_rollback_world [SDep false None; SDep false None; SRev 101])) =
       [(100, 1%Z, true, []); (200, 2%Z, false, [100]); (101, 3%Z, true, [100; 200])] /\
-    d_cc (dw_dep (run wit_hash no_slices false wit_rollback_world [SDep false None])) = Some 1.
+    d_cc (dw_dep (run wit_hash no_slices false false wit_rollback_world [SDep false None])) = Some 1.
   Proof. vm_compute. split; reflexivity. Qed.
 
   (** C08 with ObjectSlices (second half of F-C14): revision 1 (unavailable, confirmed paused) controls ConfigMap
@@ -2258,7 +2276,7 @@ Section Witness.
   Definition wit_sliced_world : dworld := wit_world (wit_dep 1 [wit_phase [wit_pobj KSliceRef 7]] None) [wit_r1; wit_r2].
 
   Lemma wit_sliced_archive :
-    let '(_, evs, _) := dep_pass wit_hash None wit_slices false false wit_sliced_world in
+    let '(_, evs, _) := dep_pass wit_hash None wit_slices false false false wit_sliced_world in
     existsb (fun e => match e with DUpdate 300 LArchived _ WOk => true | _ => false end) evs = true /\
     listed false wit_sliced_world = [wit_r1; wit_r2] /\
     existsb (okey_eqb (wit_key 1)) (os_ctrlof (ds_set wit_r1)) = true /\
@@ -2267,7 +2285,7 @@ Section Witness.
   Proof. vm_compute. repeat split. Qed.
 
   Lemma wit_sliced_archive_repaired :
-    let '(_, evs, _) := dep_pass wit_hash None wit_slices true false wit_sliced_world in
+    let '(_, evs, _) := dep_pass wit_hash None wit_slices true false false wit_sliced_world in
     existsb (fun e => match e with DUpdate _ LArchived _ _ => true | _ => false end) evs = false.
   Proof. vm_compute. reflexivity. Qed.
 
@@ -2280,8 +2298,102 @@ Section Witness.
        wit_set 300 103 3 tmpl3 [100; 200] LActive [] []].
 
   Lemma wit_gc_deletes_available :
-    let '(_, evs, _) := dep_pass wit_hash None no_slices false false wit_gc_world in
+    let '(_, evs, _) := dep_pass wit_hash None no_slices false false false wit_gc_world in
     existsb (fun e => match e with DDelete 100 DlOk => true | _ => false end) evs = true /\
     existsb (fun e => match e with DUpdate 200 LArchived _ WOk => true | _ => false end) evs = true.
   Proof. vm_compute. split; reflexivity. Qed.
 End Witness.
+
+(** * Part 8: statements for props/C07.v and props/C08.v *)
+Theorem revisions_unique hash slices sliceaware rev0ok w0 h :
+  Inv w0 -> Forall ok_step h ->
+  forall a b, In a (dw_sets (run hash slices sliceaware rev0ok w0 h)) -> In b (dw_sets (run hash slices sliceaware rev0ok w0 h)) ->
+    ds_sel a = true -> ds_sel b = true -> sname a <> sname b -> srev a <> 0%Z -> srev a <> srev b.
+Proof. intros HI HF. exact (i_uniq _ (inv_run hash slices sliceaware rev0ok h w0 HI HF)). Qed.
+
+Theorem revisions_unique_stale_refuted :
+  exists w0 h a b, Inv w0 /\ In a (dw_sets (run wit_hash no_slices false false w0 h)) /\ In b (dw_sets (run wit_hash no_slices false false w0 h)) /\
+    ds_sel a = true /\ ds_sel b = true /\ sname a <> sname b /\ srev a <> 0%Z /\ srev a = srev b /\
+    os_prev (ds_set a) = os_prev (ds_set b).
+Proof.
+  exists wit_w0, wit_edit_history.
+  set (S := dw_sets (run wit_hash no_slices false false wit_w0 wit_edit_history)).
+  exists (nth 1 S wit_old), (nth 2 S wit_old). split; [exact wit_w0_inv|]. vm_compute. repeat split; auto; discriminate.
+Qed.
+
+Theorem exactly_one_refuted :
+  exists w0 h, Inv w0 /\ count_changes wit_hash no_slices false false w0 h = 0%nat /\
+               count_creates wit_hash no_slices false false w0 h = 2%nat.
+Proof. exists wit_w0, wit_stale_history. split; [exact wit_w0_inv|]. destruct wit_two_creates as (H1 & H2 & _). auto. Qed.
+
+(** The archive rule with the repaired getter: the next newer revision's objects include its ObjectSlices. *)
+Theorem archive_sound_repaired hash fault slices rev0ok stale w w' evs r n pbp ur :
+  NoDup (map sname (dw_sets w)) -> dep_pass hash fault slices true rev0ok stale w = (w', evs, r) ->
+  In (DUpdate n LArchived pbp ur) evs -> archivable (full_objects slices) (listed stale w) n.
+Proof. intros Hnd Hp Hi. exact (proj2 (archive_sound hash fault slices true rev0ok stale w w' evs r n pbp ur Hnd Hp Hi)). Qed.
+
+(** ... and with the getter as it is: only the inline objects of the next newer revision are looked at. *)
+Theorem archive_sound_inline hash fault slices rev0ok stale w w' evs r n pbp ur :
+  NoDup (map sname (dw_sets w)) -> dep_pass hash fault slices false rev0ok stale w = (w', evs, r) ->
+  In (DUpdate n LArchived pbp ur) evs -> archivable set_objects (listed stale w) n.
+Proof. intros Hnd Hp Hi. exact (proj2 (archive_sound hash fault slices false rev0ok stale w w' evs r n pbp ur Hnd Hp Hi)). Qed.
+
+Theorem archive_sound_refuted :
+  exists w slices evs w' r n pbp r1 r2 k,
+    dep_pass wit_hash None slices false false false w = (w', evs, r) /\ In (DUpdate n LArchived pbp WOk) evs /\
+    listed false w = [r1; r2] /\ sname r1 = n /\ In k (os_ctrlof (ds_set r1)) /\ In k (full_objects slices r2) /\
+    is_available r2 = false /\ ~ archivable (full_objects slices) (listed false w) n.
+Proof.
+  destruct (dep_pass wit_hash None wit_slices false false false wit_sliced_world) as [[w' evs] r] eqn:Ep.
+  exists wit_sliced_world, wit_slices, evs, w', r, 300, false, wit_r1, wit_r2, (wit_key 1).
+  split; [exact Ep|]. vm_compute in Ep. injection Ep as <- <- <-.
+  split; [cbn; auto|]. split; [reflexivity|]. split; [reflexivity|]. split; [now left|]. split; [now left|]. split; [reflexivity|].
+  intros (l1 & x & l2 & EL & En & Hne & _ & _ & Hd).
+  assert (E : listed false wit_sliced_world = [wit_r1; wit_r2]) by reflexivity. rewrite E in EL.
+  destruct l1 as [|y l1]; cbn in EL.
+  - injection EL as <- <-. destruct Hd as [(s & Hs & Ha & _)|(_ & nx & l3 & act & Enx & _ & Hact & Hdis)].
+    + destruct Hs as [<-|[]]. discriminate.
+    + injection Enx as <- <-. injection Hact as <-. apply (Hdis (wit_key 1)); now left.
+  - injection EL as <- EL. destruct l1 as [|z l1]; cbn in EL; [injection EL as <- <-; now apply Hne|].
+    injection EL as _ EL. destruct l1; discriminate.
+Qed.
+
+(** * Part 9: the handover (system level, partial) *)
+Section Handover.
+  Variable force : bool.
+  Let c : cfg := {| c_flavor := FObjectSet; c_force := force |}.
+
+  (** Tearing a revision down leaves every object alone that the revision neither controls nor owns. *)
+  Lemma tp_foreign ow k o rphs : forall w w' evs r,
+    teardown_phases force w ow rphs = (w', evs, r) ->
+    lookup k (w_store w) = Some o -> is_owner Native (ow_id ow) o = false -> is_controller Native (ow_id ow) o = false ->
+    lookup k (w_store w') = Some o.
+  Proof.
+    induction rphs as [|x xs IH]; intros w w' evs r H El Ho Hc.
+    - cbn in H. now injection H as <- _ _.
+    - rewrite tp_cons in H. destruct (teardown_phase _ _ w ow (ph_objects x)) as [[w1 e1] r1] eqn:E1.
+      assert (Hf : lookup k (w_store w1) = Some o).
+      { unfold teardown_phase in E1. exact (proj1 (TeardownProofs.td_objs_foreign _ _ _ _ _ _ _ _ _ _ E1 El Ho Hc)). }
+      destruct r1 as [|[|]]; try (injection H as <- _ _; exact Hf).
+      destruct (teardown_phases force w1 ow xs) as [[w2 e2] r2] eqn:E2. injection H as <- _ _. eapply IH; eauto.
+  Qed.
+
+  (** A pass of the ObjectSet controller for a revision that is being archived or deleted removes or changes
+      no member object that the revision does not control or own. *)
+  Theorem going_pass_foreign hash slices sliceaware rev0ok w n mem k o :
+    find_set (sw_sets (to_sworld w)) (set_kind w) (oi_ns (d_id (dw_dep w))) n = Some mem ->
+    (os_deleting mem = true \/ os_life mem = LArchived) ->
+    lookup k (w_store (dw_w w)) = Some o ->
+    is_owner Native (os_id mem) o = false -> is_controller Native (os_id mem) o = false ->
+    lookup k (w_store (dw_w (do_step hash slices sliceaware rev0ok w (SSet force n)))) = Some o.
+  Proof.
+    intros Hf Hg El Ho Hc. cbn [do_step].
+    destruct (objectset_pass force (to_sworld w) (set_kind w) (oi_ns (d_id (dw_dep w))) n) as [[sw' evs] r] eqn:Ep. cbn [of_sworld dw_w].
+    destruct (cond_true (os_conds mem) CArchived) eqn:Ea.
+    - unfold objectset_pass in Ep. rewrite Hf, Ea in Ep. injection Ep as <- _ _. exact El.
+    - pose proof (objectset_pass_going force _ _ _ _ _ _ _ _ Hf (conj Ea Hg) Ep) as Hd.
+      destruct (deletion_pass_inv force _ _ _ _ _ Hd) as (w1 & tevs & td & Etd & _ & Hst & _). rewrite Hst.
+      unfold teardown_of in Etd. destruct (os_fin mem); [|injection Etd as <- _ _; exact El].
+      destruct (os_orphan mem); [injection Etd as <- _ _; exact El|]. eapply tp_foreign; eauto.
+  Qed.
+End Handover.
